@@ -86,7 +86,28 @@ def gen_l1(rng, n, prefix="a"):
             kv.update(mem=rng.randrange(0, 40), prealloc=rng.choice([0, 0, 4, 16]), bm=rng.randrange(2), bail=rng.choice(["-", b"[B]".hex()]))
         elif r == 3:
             kv.update(endt=b"<!--end-->".hex())
-        yield "L1 %s%d %s ops=%s" % (prefix, i, " ".join("%s=%s" % x for x in kv.items()), ops_of(chunkings(rng, data)))
+        yield "L1 %s%d %s ops=%s" % (prefix, i, " ".join("%s=%s" % x for x in kv.items()), ops_of(big_chunkings(rng, data) if len(data) > 5000 else chunkings(rng, data)))
+
+def big_chunkings(rng, data):
+    """a very long tag: whole, or cut once (re-lexing a buffered tag for every small chunk is quadratic in model and implementation)"""
+    if rng.randrange(2): return [data]
+    c = rng.randrange(1, len(data)); return [data[:c], data[c:]]
+
+RUN_UNITS = [b"x ", b"x\t", b"/ ", b"x/", b"x= ", b"<", b"-", b"]", b"--!", b"<!", b"</", b"x='' ", b'"', b"'", b"&", b"\t", b"<a ", b"?", b"<!-", b"</ ", b"-->", b"=", b"<x", b"</x", b"]]", b"\n", b"<s", b"</s"]
+RUN_CTX = [(b"<p>", b"<p>y</p>"), (b"<p><a ", b">t</a>"), (b"<p></a ", b">t"), (b"<!--", b"--><p>"), (b"<svg><![CDATA[", b"]]></svg>"), (b"<script>", b"</script><p>"),
+           (b"<script><!--<script>", b"</script>--></script>"), (b"<!doctype ", b"><p>"), (b"<!doctype html public ", b"><p>"), (b"<title>", b"</title>"), (b"<a b=", b">"), (b"<a b='", b"'>"), (b"<style>", b"</style>")]
+def gen_runs(rng, n):
+    """stack depth (C15): one construct repeated thousands of times (on a 512 KiB stack, see harness run_line) inside every tokenizer context, whole or cut once, with the tag
+    scanner (no handlers) and the lexer (capture everything).  Direct `--> #[inline]` calls between state functions must not nest per repetition."""
+    k = 0
+    # the valueless-attribute run first (two states that hand over to each other per attribute), then the random combinations
+    fixed = [(b"<p><a ", b"x ", b">t</a>"), (b"<p><a ", b"x ", b"")]
+    while k < n:
+        pre, unit, post = fixed[k] if k < len(fixed) else ((lambda c: (c[0], rng.choice(RUN_UNITS), c[1]))(rng.choice(RUN_CTX)))
+        reps = rng.choice([5000, 6000])
+        data = pre + unit * reps + rng.choice([post, post, b""])
+        yield "L1 rn%d stack=512 seed=%d strict=0 ops=%s" % (k, rng.choice([0, 21]) if k >= len(fixed) else (0, 21)[k % 2], ops_of(big_chunkings(rng, data)))
+        k += 1
 
 def gen_l1fail(rng, n, prefix="f"):
     """failure-heavy histories: a handler failure or a memory failure at a random point, more calls afterwards"""
@@ -478,7 +499,8 @@ def gen_enc(rng, n, prefix="e"):
         ch = chunkings(rng, data)
         endins = rng.choice(["-", "-", hx("\u00e9bauche"), hx("\u044f\u4e2d" * 40), hx("end<!--\u00e9-->"), hx("ascii end")])
         sparse = 1 if rng.randrange(5) == 0 else 0        # no text / comment handlers: tags only
-        yield "L3 %s%d nomodel=1 enc=%d meta=%d sparse=%d ins=%s endins=%s ops=%s" % (prefix, i, idx, meta, sparse, ins, endins, ",".join(["W" + c.hex() for c in ch] + ["E"]))
+        medit = rng.choice([1, 2, 3, 4, 9]) if meta and rng.randrange(3) == 0 else 0
+        yield "L3 %s%d nomodel=1 enc=%d meta=%d sparse=%d%s ins=%s endins=%s ops=%s" % (prefix, i, idx, meta, sparse, " medit=%d" % medit if medit else "", ins, endins, ",".join(["W" + c.hex() for c in ch] + ["E"]))
 
 def gen_td(rng, n, prefix="t"):
     """text-only UTF-8 documents (no '<'): valid multi-byte characters, malformed and truncated sequences, long runs, every kind of split"""
@@ -513,7 +535,13 @@ def c03_island(rng, ns, depth=0):
         if c < 3: out += rng.choice([b"text", b"a &amp; b", b" ", b"x < y", b"1<2"]) if c else b"t"
         elif c < 4: out += b"<![CDATA[" + rng.choice([b"x", b"<b>not a tag</b>", b"]] >", b""]) + b"]]>"
         elif c < 5: out += b"<!--" + rng.choice([b"c", b""]) + b"-->"
-        elif c < 7: out += b"<" + rng.choice([b"g", b"path d=1", b"circle r='2'", b"mrow", b"mspace"]) + b"/>"
+        elif c < 7:
+            if rng.randrange(3): out += b"<" + rng.choice([b"g", b"path d=1", b"circle r='2'", b"mrow", b"mspace"]) + b"/>"
+            else:
+                # a SELF-CLOSING integration point opens nothing: what follows is still foreign content (CDATA is CDATA, <style> is an ordinary element)
+                out += (rng.choice([b"<foreignObject/>", b"<desc/>", b"<title/>", b"<desc id=d />"]) if ns == "svg" else
+                        rng.choice([b'<annotation-xml encoding="text/html"/>', b"<annotation-xml encoding='application/xhtml+xml' />", b'<annotation-xml ENCODING="Text/HTML"/>', b"<mi/>", b"<mtext/>", b"<ms x=y/>"]))
+                out += rng.choice([b"<![CDATA[><p>x</p>]]>", b"<![CDATA[<b>]]>", b"<style>s</style>", b"<title>t</title>", b"<![CDATA[a]]><g/>", b"<textarea>q</textarea>"])
         elif c < 10 and depth < 4:
             # (a root element of the same namespace nested directly: <svg> in SVG content, <math> in MathML content)
             t = rng.choice([b"g", b"a", b"text", b"defs", b"svg", b"svg"] if ns == "svg" else [b"mrow", b"mfrac", b"semantics", b"mstyle", b"math", b"math"])
@@ -552,6 +580,12 @@ def gen_c03(rng, n, prefix="w"):
         else:
             ns = rng.choice(["svg", "math"])
             data = rng.choice([b"", b"<!DOCTYPE html>", b"<p>before"]) + b"<" + ns.encode() + rng.choice([b"", b" viewBox='0 0 1 1'"]) + b">" + c03_island(rng, "svg" if ns == "svg" else "mathml") + b"</" + ns.encode() + b">" + rng.choice([b"", b"<p>after</p>", b"<textarea><b></textarea>"])
+        if rng.randrange(25) == 0:
+            # a breakout tag inside directly nested foreign roots leaves ALL of them (13.2.6.5): what follows is HTML content
+            r = rng.choice([b"svg", b"math"]); k = rng.randrange(1, 4)
+            wrap = rng.choice([b"", b"<g>", b"<mrow id=x>", b"<title/>"])
+            brk = rng.choice([b"<i>t</i>", b"<p>t", b"<b>", b"</p>", b"</br>", b"<font color=red>f</font>", b"<div>d</div>", b"<u>q</u>"])
+            data = rng.choice([b"", b"<p>before"]) + (b"<" + r + b">") * k + wrap + brk + rng.choice([b"<![CDATA[y]]>", b"<style><b>1</b></style>", b"<![CDATA[<b>]]>x", b"<title><i></title>"]) + (b"</" + r + b">") * rng.choice([0, k])
         ch = chunkings(rng, data)
         ops = ",".join(["W" + c.hex() for c in ch] + ["E"])
         seed = 2000 if rng.randrange(3) else rng.randrange(1, 900)       # capture everything, or a sparse capture policy
@@ -645,7 +679,21 @@ def gen_pairs(rng, n):
             toks = ["sel=%s~T%s~oe:()~-~-" % (hx(root), hx(root)), "sel=2a~A~~-~-"]
             if rng.randrange(2): toks.append("sel=70~T70~~-~-")
             yield "L2 prn%d isz=104 strict=0 %s ops=%s" % (i, " ".join(toks), ",".join(["W" + c.hex() for c in chunkings(rng, data)] + ["E"]))
-    for line in itertools.chain(gen_l2(rng, n - n // 3, 'match', 'pr'), gen_c05(rng, n // 3, 'prd'), nested_roots()):
+    def inner_removed():
+        # H replaces the inner content of an element (no end-tag handler) whose ancestor has the same tag name; H also watches a descendant of that
+        # ancestor AFTER the inner element and the ancestor's end tag: the inner end tag must close the inner element only, with and without observers
+        for i in range(max(2, n // 8)):
+            t = rng.choice(["div", "section", "ul", "b", "span"]); d = rng.choice(["span", "i", "em"])
+            junk = rng.choice([b"junk", b"<b>x</b>", b"a<i>b</i>c", b"<!--c-->", b"", b"<%s>deep</%s>" % (t.encode(), t.encode())])
+            data = (rng.choice([b"", b"<p>lead</p>", b"text "]) + b"<" + t.encode() + b" class=outer>" + rng.choice([b"", b"x", b"<hr>"]) + b"<" + t.encode() + b" class=inner>" + junk + b"</" + t.encode() + b">" +
+                    b"<" + d.encode() + b">s</" + d.encode() + b">" + rng.choice([b"", b"t", b"<" + d.encode() + b" id=z>u</" + d.encode() + b">"]) + b"</" + t.encode() + b">" + rng.choice([b"", b"<p>tail</p>"]))
+            inner_ops = rng.choice(["si:" + gen_chunk(rng), "si:" + gen_chunk(rng), "sb:" + gen_chunk(rng) if False else "si:" + gen_chunk(rng) + ",sa:%s:%s" % (hx("k"), hx("v"))])
+            toks = ["sel=%s~T%s.C%s~%s~-~-" % (hx(t + ".inner"), hx(t), hx("inner"), inner_ops),
+                    "sel=%s~T%s.C%s_T%s~~-~-" % (hx(t + ".outer " + d), hx(t), hx("outer"), hx(d))]
+            if rng.randrange(2): toks.append("sel=%s~T%s.C%s~oe:()~-~-" % (hx(t + ".outer"), hx(t), hx("outer")))
+            if rng.randrange(3) == 0: toks.append("sel=%s~T%s.C%s>T%s~~-~-" % (hx(t + ".outer > " + d), hx(t), hx("outer"), hx(d)))
+            yield "L2 pri%d isz=104 strict=0 %s ops=%s" % (i, " ".join(toks), ",".join(["W" + c.hex() for c in chunkings(rng, data)] + ["E"]))
+    for line in itertools.chain(gen_l2(rng, n - n // 3, 'match', 'pr'), gen_c05(rng, n // 3, 'prd'), nested_roots(), inner_removed()):
         if any(t.split('=')[0] in ('fail', 'mem') for t in line.split(' ')): continue
         data = data_of(line); cid = line.split(' ')[1]
         ch = chunkings(rng, data)
@@ -753,6 +801,19 @@ def gen_sk(rng, n):
             if rng.randrange(8) == 0: ops.append("s" + rng.choice(["", "ok", "<i>", "\u00e9", "a&b"]).encode().hex())
         yield "SK k%d ct=%s ops=%s" % (i, rng.choice("ht"), ",".join(ops))
 
+def gen_leak(rng, n):
+    """C18: a rewriter that fails right after it found a <meta charset> declaration (its own handler on that tag fails), immediately followed -- on the same
+    thread in the sequential run -- by an unrelated rewriter on non-ASCII text: nothing of the first may reach the second"""
+    for i in range(max(1, n // 2)):
+        utf8 = ENC_LABELS.index("utf-8")
+        idx_a = rng.choice([utf8, ENC_LABELS.index("windows-1252")])
+        label = rng.choice([b"windows-1251", b"koi8-r", b"shift_jis", b"iso-8859-2", b"gbk"])
+        a = b"<html><head>" + rng.choice([b"<meta charset=" + label + b">", b'<meta http-equiv="Content-Type" content="text/html; charset=' + label + b'">']) + b"</head><body><p>x</p>"
+        yield "L3 lk%da nomodel=1 enc=%d meta=1 sparse=0 medit=9 ins=- endins=- ops=%s" % (i, idx_a, ",".join(["W" + c.hex() for c in chunkings(rng, a)] + ["E"]))
+        idx_b = rng.choice([utf8, ENC_LABELS.index("windows-1252"), ENC_LABELS.index("windows-1250")])
+        b = b"<div><p>" + enc_text(rng, idx_b) + "na\u00efve caf\u00e9 \u00fc".encode(ENC_CODECS[idx_b] or "utf-8", errors="ignore") + b"</p><b>" + enc_text(rng, idx_b) + b"</b></div>"
+        yield "L3 lk%db nomodel=1 enc=%d meta=%d sparse=0 ins=%s endins=- ops=%s" % (i, idx_b, rng.randrange(2), rng.choice(["-", "\u2713ok".encode().hex()]), ",".join(["W" + c.hex() for c in chunkings(rng, b)] + ["E"]))
+
 def gen_twins(rng, n):
     """pairs of cases whose selectors differ only in ASCII case where case matters (ids, classes, case-sensitive attribute values):
     anything remembered from one rewriter (a cache keyed too coarsely) shows in the other"""
@@ -775,6 +836,13 @@ def gen_nohandlers(rng, n):
     for i in range(n):
         data = rng.choice([lambda: l2_doc(rng), lambda: doc(rng, 10), lambda: wellformed(rng)])()
         data = data[:120]
+        if rng.randrange(4) == 0:
+            # foreign content in which the scanner asked for a lexeme (integration-point / breakout names), then constructs that stay foreign:
+            # whatever is unfinished afterwards is still held back as "<" + name only
+            root, asks = rng.choice([(b"<svg>", [b"<font>", b"<title/>", b"<desc/>", b"<foreignObject/>", b"<font/>", b"<b-c>"]),
+                                     (b"<math>", [b"<annotation-xml>", b"<mi/>", b"<foo-bar>", b"<mtext/>", b"<semantics><annotation-xml>", b"<annotation-xml encoding=x>"])])
+            rest = b"".join(rng.choice([b"<!-- still streaming -->", b'<mrow class="a b c" id="x">', b"<g fill='red' stroke=blue>", b"text ", b"<![CDATA[ x<y ]]>", b"</g>", b"<path d='M0 0'/>", b"<!doctype x>", b"<a b=c>"]) for _ in range(rng.randrange(2, 6)))
+            data = rng.choice([b"", b"<p>"]) + root + rng.choice(asks) + rest
         if rng.randrange(3) == 0: data = rng.choice([b"</ x>", b"</>", b"<?x?>", b"<!x>", b"</ y z>text after", b"<script><!-- </b-c script text goes on and on", b"<script><!--</x1 a b c d e f"]) + data
         chunks = [data[j:j+1] for j in range(len(data))] or [b""]
         yield "L2 nh%d isz=104 strict=%d ops=%s" % (i, 1 if rng.randrange(5) == 0 else 0, ",".join(["W" + c.hex() for c in chunks] + ["E"]))
@@ -804,6 +872,8 @@ def main():
         for l in gen_td(rng, n): print(l)
     elif fam == "sk":
         for l in gen_sk(rng, n): print(l)
+    elif fam == "leak":
+        for l in gen_leak(rng, n): print(l)
     elif fam == "twins":
         for l in gen_twins(rng, n): print(l)
     elif fam == "capis":
@@ -856,6 +926,8 @@ def main():
         for l in gen_c04(rng, n): print(l)
     elif fam == "l1fail":
         for l in gen_l1fail(rng, n): print(l)
+    elif fam == "runs":
+        for l in gen_runs(rng, n): print(l)
     else:
         sys.exit("unknown family " + fam)
 
